@@ -625,3 +625,153 @@ def rule_nan_frontends(ctx, R):
                 R.finding(fn, "parsed-score#%d:nan-not-refused-before-the-engine" % k,
                           "%s parses a score (line %d) and passes it on without an is_nan() test of that value: the engine refuses NaN only when it reaches that pair, after the earlier pairs of the same ZADD were written -- a refused multi-member ZADD adds members" % (fn.split("::")[-1], b.bb_line(i)), b.loc(i))
     R.floor("score_parses_in_zadd_front_ends", n)
+
+
+# ---- R-BOUNDS-USED ------------------------------------------------------------------------------
+def bounds_used_issues(ctx, fn, b):
+    """for a function with exactly two f64 parameters (the score bounds of a range query):
+    [(block, description)] of answers that do not come from a call that was handed both bounds.
+    An answer is a call whose result becomes the function's result, or the payload of an `Ok(..)`
+    result.  Accepted: the value derives from a call that receives both bounds; a value made
+    from no parameter at all (the empty answer for a missing key); or the answer is reachable
+    only through an exact comparison (`==` with a constant) of EACH bound (a fast path for
+    `-inf .. +inf` that tests both signs)."""
+    import boolpath
+    fps = [l for l in range(1, b.nargs + 1) if (b.locals[l] or "") == "f64"]
+    if len(fps) != 2:
+        return None
+    out = []
+
+    def uses_both(t):
+        got = set()
+        for a in t["a"]:
+            if not op_is_const(a):
+                got |= prov.operand_origins(b, a, deep=True).params() & set(fps)
+        return got == set(fps)
+
+    def covered(op, depth=0):
+        """does the operand derive from a call that received both bounds (or from no parameter)?"""
+        if op_is_const(op):
+            return True
+        P = prov.operand_origins(b, op, deep=True)
+        calls = [r for r in P.roots if r[0] == "call"] + [("call", c, bb) for c, bb in P.via]
+        if any(uses_both(b.term(r[2])) for r in calls if b.term(r[2])["k"] == "call"):
+            return True
+        # made from nothing the caller passed except (possibly) nothing: the empty answer
+        return not P.params()
+
+    answers = []
+    for i, bb in enumerate(b.bbs):
+        if bb["cleanup"]:
+            continue
+        for st in bb["s"]:
+            if st["k"] == "=" and st["l"]["l"] == 0 and not st["l"]["p"]:
+                r = st["r"]
+                if r["k"] == "agg" and r["a"].endswith("Result::Ok") and r["o"]:
+                    answers.append((i, r["o"][0], "Ok(..)"))
+                elif r["k"] == "use" and not op_is_const(r["o"]):
+                    answers.append((i, r["o"], "result"))
+        t = bb["t"]
+        if t["k"] == "call" and t["d"]["l"] == 0 and not t["d"]["p"] and not re.search(r"from_residual|::from$|::into$", t["f"] or ""):
+            if not uses_both(t):
+                answers.append((i, None, "call:" + shared.short_callee(t["f"] or "?")))
+    for i, op, what in answers:
+        if op is not None and covered(op):
+            continue
+        if op is None:
+            t = b.term(i)
+            if not any(not op_is_const(a) and prov.operand_origins(b, a, deep=True).params() for a in t["a"]):
+                continue
+        # guarded by exact tests of both bounds?
+        ok = True
+        for p in fps:
+            class E(boolpath.Spec):
+                def stmt(self, b_, bbi, st, p=p):
+                    r = st["r"]
+                    if r["k"] != "bin" or r.get("op") not in ("Eq", "Ne"):
+                        return None
+                    ops = (r["a"], r["b"])
+                    if sum(1 for o in ops if op_is_const(o)) != 1:
+                        return None
+                    v = [o for o in ops if not op_is_const(o)][0]
+                    if p in prov.operand_origins(b, v).params():
+                        return boolpath.A if r["op"] == "Eq" else boolpath.N
+                    return None
+            ex = boolpath.explore(b, E(), cap=60000)
+            if i in ex.reached:
+                ok = False
+        if not ok:
+            out.append((i, what))
+    return out
+
+
+def rule_bounds_used(ctx, R):
+    """ZCOUNT = |ZRANGEBYSCORE| for every pair of bounds, infinite and reversed ones included:
+    an engine method that takes the two score bounds answers from a call that received both of
+    them (or with the empty answer, or behind exact tests of both bounds)."""
+    import boolpath
+    n = 0
+    for fn, b in sorted(shared.engine_bodies(ctx.prog).items()):
+        if b.kind == "Closure" or "::tests::" in fn:
+            continue
+        try:
+            iss = bounds_used_issues(ctx, fn, b)
+        except boolpath.TooManyStates as e:
+            R.broken.append(str(e)); continue
+        if iss is None:
+            continue
+        n += 1
+        R.inst(fn, "score-range-method", {"function": fn, "answers_not_from_both_bounds": len(iss)})
+        for i, what in iss[:1]:
+            R.finding(fn, "answer-not-from-bounds:%s" % what,
+                      "%s answers (%s, line %d) with a value that does not come from a call that received both score bounds, on a path with no exact test of both: bound pairs other than the intended one (+inf +inf, -inf -inf, a reversed +inf -inf) get that answer too" % (fn.split("::")[-1], what, b.bb_line(i)), b.loc(i))
+    R.floor("score_range_methods", n)
+
+
+# ---- R-SCORE-EXTREMES -----------------------------------------------------------------------------
+_F64_EXTREME = re.compile(r"(^|::)(MAX|MIN)$|1\.7976931348623157[eE]\+?308")
+
+
+def score_extreme_sites(ctx, b):
+    """[(block, callee, arg index, constant)] call sites that hand the finite extremes f64::MIN /
+    f64::MAX to an f64 parameter of a range function (anything named *range* / *count* / *rank*
+    / *score*)"""
+    out = []
+    for i, t in b.calls():
+        f = t["f"] or ""
+        if b.bbs[i]["cleanup"] or not re.search(r"(range|count|between|by_score|score)", f.split("::")[-1] if "::" in f else f, re.I):
+            continue
+        if not f.startswith(("storage::", "<storage::")):
+            continue
+        for k, a in enumerate(t["a"]):
+            c = None
+            if op_is_const(a) and a.get("ty") == "f64":
+                c = a["c"]
+            elif not op_is_const(a) and (b.locals[op_place(a)["l"]] or "") == "f64":
+                P = prov.operand_origins(b, a)
+                cs = [r[1] for r in P.roots if r[0] == "const"]
+                if cs and not P.params() and not any(r[0] == "call" for r in P.roots):
+                    c = cs[0]
+            if c is not None and _F64_EXTREME.search(c.replace("const ", "")):
+                out.append((i, f, k, c))
+    return out
+
+
+def rule_score_extremes(ctx, R):
+    """infinities are scores: `everything` is -inf..+inf (or an unfiltered walk), never
+    f64::MIN..f64::MAX -- the finite extremes leave out the members scored -inf / +inf.  No call
+    of a score-range function receives a finite-extreme constant as a bound."""
+    n = 0
+    for fn, b in sorted(ctx.prog.bodies.items()):
+        if not fn.startswith(("storage::", "network::")) or "::tests::" in fn:
+            continue
+        for i, t in b.calls():
+            f = t["f"] or ""
+            if f.startswith("storage::skiplist::SkipList") and any((not op_is_const(a) and (b.locals[op_place(a)["l"]] or "") == "f64") or (op_is_const(a) and a.get("ty") == "f64") for a in t["a"]):
+                n += 1
+        for i, f, k, c in score_extreme_sites(ctx, b):
+            R.inst(fn, "extreme-bound:%s#%d" % (shared.short_callee(f), k), {"function": fn, "at": b.loc(i), "constant": c})
+            R.finding(fn, "extreme-bound:%s#%d" % (shared.short_callee(f).split("::")[-1], k),
+                      "%s passes the finite extreme %s as a score bound to %s (line %d): members scored -inf / +inf lie outside that range and are left out (a snapshot written from it loses them)" % (fn.split("::")[-1], c, shared.short_callee(f), b.bb_line(i)), b.loc(i))
+    R.inst("storage", "score-range-calls", {"skiplist_calls_with_score_arguments": n})
+    R.floor("skiplist_calls_with_score_arguments", n)
